@@ -1,7 +1,8 @@
 (* TypingTheorems.v — the statements exported to Properties/C04.v, the examples showing that their
    hypotheses are satisfiable, and the refutation witnesses (by vm_compute). *)
 From PG Require Import Common.Tactics Model.Typing Proofs.TypingBasics Proofs.TypingApply Proofs.TypingCompat
-                       Proofs.TypingExtend Proofs.TypingDict Proofs.TypingApplyDict Proofs.TypingCompatDict.
+                       Proofs.TypingExtend Proofs.TypingDict Proofs.TypingApplyDict Proofs.TypingCompatDict
+                       Proofs.TypingUnion Proofs.TypingUnionCompat.
 Local Open Scope Z_scope.
 
 (* ------------------------------------------------------------------------------------------ *)
@@ -253,3 +254,37 @@ Example ex_avoids_all :
     (SDict (Some [(KConst (S_ 120), SInt (Some 0) (Some 5) m0);
                   (KConst (S_ 121), SList (SStr (Mods true None false)) 0 (Some 2) m0)]) m0) = true.
 Proof. reflexivity. Qed.
+
+(* ------------------------------------------------------------------------------------------ *)
+(** * Unions with a safe dispatch *)
+
+Lemma union_plain_with_mods : forall s m, union_plain (with_mods s m) = union_plain s.
+Proof. destruct s; reflexivity. Qed.
+
+Theorem default_acceptable_plain : forall s d d' fz,
+  union_plain s = true -> keys_ok s = true ->
+  apply true (unfreeze s) d = Ok d' ->
+  apply true (with_mods s (Mods (noneable (mods_of s)) (Some d') fz)) d' = Ok d'.
+Proof.
+  intros s d d' fz NU KO H. destruct fz.
+  - rewrite apply_eq. unfold pipeline. destruct s; cbn; rewrite py_eq_refl, orb_true_r; reflexivity.
+  - unfold unfreeze in H.
+    rewrite (apply_default_irrelevant true s _ (Some d') (default (mods_of s))).
+    eapply apply_idempotent_plain; eauto.
+    + rewrite union_plain_with_mods; auto.
+    + rewrite keys_ok_with_mods; auto.
+Qed.
+
+(* Union([Int(0..5), Str(), List(Float())]) and Union([Bool(), Float(), Dict()]): safe dispatch *)
+Definition ex_union_a : spec :=
+  SUnion [SInt (Some 0) (Some 5) m0; SStr m0; SList (SFloat None None m0) 0 None m0] (Mods true None false).
+Definition ex_union_b : spec := SUnion [SStr m0; SInt (Some 1) (Some 2) m0] m0.
+Example ex_union_hyps :
+  union_safe ex_union_a = true /\ union_plain ex_union_b = true /\
+  avoids (Quirks true true true true true) ex_union_a = true /\
+  wf ex_union_a /\ wf ex_union_b /\ compat (Quirks true true true true true) ex_union_a ex_union_b = true.
+Proof.
+  unfold ex_union_a, ex_union_b. repeat split; try reflexivity; unfold frozen_value_ok; simpl; intros; discriminate.
+Qed.
+Example ex_union_value : conforms ex_union_b (PInt 2) /\ apply false ex_union_a (PInt 2) = Ok (PInt 2).
+Proof. split; vm_compute; reflexivity. Qed.
